@@ -17,7 +17,7 @@ import (
 
 // alphabet of entry names (DESIGN.md §4 C07): plain, leading dot, leading and inner doubled dots, trailing dot,
 // inner and leading space, 2-byte and 3-byte UTF-8, shell metacharacters, an archive extension, a leading dash.
-var alphabet = []string{"a", ".a", "..a", "a..b", "a.", "a b", " a", "é", "日本", "$(x)", "a;b", "x.zip", "-r"}
+var alphabet = []string{"a", ".a", "..a", "a..b", "a.", "a b", " a", "é", "日本", "$(x)", "a;b", "x.zip", "-r", "a\\b"} // a\b: a backslash is a legal name character on POSIX (added after a seeded change rewrote it into a separator)
 
 // content classes of regular files
 const (
